@@ -540,11 +540,18 @@ func (e *Env) call(n *SNode) SV {
 		// typeis(v, "pkg.Type"): dynamic type test on an interface value
 		a := e.eval(n.Args[0])
 		name := n.Args[1].Name
-		id, ok := x.typeIDByShortName(name)
+		ct, ok := x.W.typeByShortName(name)
 		if !ok {
 			e.fail("unknown type %q in typeis", name)
 		}
-		return svTerm(B.Eq(a.V.L[0], id))
+		if a.V == nil {
+			e.fail("typeis on a non-Go value")
+		}
+		if it, isIface := a.V.T.Underlying().(*types.Interface); isIface && !types.Implements(ct, it) {
+			// the static interface type rules the dynamic type out
+			return svTerm(B.False())
+		}
+		return svTerm(B.Eq(a.V.L[0], x.typeID(ct)))
 	case "typeid":
 		id, ok := x.typeIDByShortName(n.Args[0].Name)
 		if !ok {
